@@ -15,7 +15,13 @@ type node struct {
 	style string
 	text  string
 	kids  []*node
+	// generated content of the ::before / ::after pseudo-elements ("" = none); pagesMark stands
+	// for the value of counter(pages)
+	before, after string
 }
+
+// pagesMark is the canonical form of a counter(pages) value in the expected and observed text.
+const pagesMark = "#"
 
 // block kinds of the grammar.
 const (
@@ -24,10 +30,17 @@ const (
 	kTable        // <table><thead>..<tbody>..<tfoot>..</table>
 	kUL           // <ul><li>words</li>...</ul>
 	kSpans        // <p>w <span>w <span>w w</span>w</span> w</p>
-	nKinds
+	nKinds        // the kinds of the first generation (the L0/L1 skeleton lists are built from them)
 )
 
-var kindName = [...]string{"p", "divp", "table", "ul", "spans"}
+// kinds of the second generation: inline structures
+const (
+	kGlue = nKinds + iota // <p>w w<span>w</span>w w</p>: the span touches a word on both sides
+	kNote                 // <p>w <span style="float:footnote">w</span> w</p>
+	nKindsAll
+)
+
+var kindName = [...]string{"p", "divp", "table", "ul", "spans", "glue", "note"}
 
 type blockSpec struct {
 	Kind, N int
@@ -57,33 +70,108 @@ type menuEntry struct {
 	Name  string // feature tag
 	Group string // two entries of the same group are never put on the same block
 	CSS   string
+	// Target: where the declarations go. tBlock: style attribute of the top level block;
+	// tInner: style attribute of the first inner element of the block (id <block>1: inner <p>, first
+	// cell, first <li>, outer <span>); tPseudo: a rule `#id::Pseudo{CSS}` of the style sheet, id =
+	// the block (the first cell for a table).
+	Target int
+	Pseudo string
 }
 
+// where describes the entry: the declarations and what they apply to.
+func (m menuEntry) where() string {
+	switch m.Target {
+	case tInner:
+		return "first inner element{" + m.CSS + "}"
+	case tPseudo:
+		return "::" + m.Pseudo + "{" + m.CSS + "}"
+	}
+	return m.CSS
+}
+
+const (
+	tBlock = iota
+	tInner
+	tPseudo
+)
+
 var menu = []menuEntry{
-	{"break-before-page", "break-before", "break-before:page"},
-	{"break-before-avoid", "break-before", "break-before:avoid"},
-	{"break-before-left", "break-before", "break-before:left"},
-	{"break-after-page", "break-after", "break-after:page"},
-	{"break-after-avoid", "break-after", "break-after:avoid"},
-	{"break-after-left", "break-after", "break-after:left"},
-	{"break-inside-avoid", "break-inside", "break-inside:avoid"},
-	{"margin", "margin", "margin:7px 0"},
-	{"padding", "padding", "padding:3px 0"},
-	{"border", "border", "border:solid;border-width:2px 0"},
-	{"clone", "clone", "box-decoration-break:clone;padding-top:2px;padding-bottom:2px"},
-	{"inline-block", "display", "display:inline-block"},
-	{"display-table", "display", "display:table"},
-	{"relative", "position", "position:relative;top:2px"},
-	{"float", "float", "float:left;width:30px"},
-	{"absolute", "position", "position:absolute"},
-	{"columns", "columns", "columns:2"},
-	{"running", "position", "position:running(hS)"}, // S = slot number: one name per block
-	{"fixed", "position", "position:fixed"},
+	{Name: "break-before-page", Group: "break-before", CSS: "break-before:page"},
+	{Name: "break-before-avoid", Group: "break-before", CSS: "break-before:avoid"},
+	{Name: "break-before-left", Group: "break-before", CSS: "break-before:left"},
+	{Name: "break-after-page", Group: "break-after", CSS: "break-after:page"},
+	{Name: "break-after-avoid", Group: "break-after", CSS: "break-after:avoid"},
+	{Name: "break-after-left", Group: "break-after", CSS: "break-after:left"},
+	{Name: "break-inside-avoid", Group: "break-inside", CSS: "break-inside:avoid"},
+	{Name: "margin", Group: "margin", CSS: "margin:7px 0"},
+	{Name: "padding", Group: "padding", CSS: "padding:3px 0"},
+	{Name: "border", Group: "border", CSS: "border:solid;border-width:2px 0"},
+	{Name: "clone", Group: "clone", CSS: "box-decoration-break:clone;padding-top:2px;padding-bottom:2px"},
+	{Name: "inline-block", Group: "display", CSS: "display:inline-block"},
+	{Name: "display-table", Group: "display", CSS: "display:table"},
+	{Name: "relative", Group: "position", CSS: "position:relative;top:2px"},
+	{Name: "float", Group: "float", CSS: "float:left;width:30px"},
+	{Name: "absolute", Group: "position", CSS: "position:absolute"},
+	{Name: "columns", Group: "columns", CSS: "columns:2"},
+	{Name: "running", Group: "position", CSS: "position:running(hS)"}, // S = slot number: one name per block
+	{Name: "fixed", Group: "position", CSS: "position:fixed"},
 	// thorough only
-	{"float-right", "float", "float:right;width:60%"},
+	{Name: "float-right", Group: "float", CSS: "float:right;width:60%"},
+	// second generation: pseudo-elements (generated boxes and generated text)
+	{Name: "first-letter", Group: "pseudo-letter", CSS: "color:red", Target: tPseudo, Pseudo: "first-letter"},
+	{Name: "first-letter-float", Group: "pseudo-letter", CSS: "float:left", Target: tPseudo, Pseudo: "first-letter"},
+	{Name: "first-line", Group: "pseudo-line", CSS: "color:red", Target: tPseudo, Pseudo: "first-line"},
+	{Name: "before", Group: "pseudo-before", CSS: `content:"BEFORE "`, Target: tPseudo, Pseudo: "before"}, // BEFORE = a word of its own per block
+	{Name: "after", Group: "pseudo-after", CSS: `content:" AFTER"`, Target: tPseudo, Pseudo: "after"},
+	{Name: "before-pages", Group: "pseudo-before", CSS: `content:counter(pages) " "`, Target: tPseudo, Pseudo: "before"},
+	// second generation: the first inner element of the block
+	{Name: "in-float", Group: "in-float", CSS: "float:left", Target: tInner},
+	{Name: "in-absolute", Group: "in-position", CSS: "position:absolute", Target: tInner},
+	{Name: "in-relative", Group: "in-position", CSS: "position:relative;top:2px", Target: tInner},
+	{Name: "in-opacity", Group: "in-opacity", CSS: "opacity:.5", Target: tInner},
+	{Name: "in-inline-block", Group: "in-display", CSS: "display:inline-block", Target: tInner},
+	{Name: "in-block", Group: "in-display", CSS: "display:block", Target: tInner},
 }
 
 const nMenuQuick = 19
+
+// menu subsets (indices)
+func menuRange(from, to int) []int {
+	var out []int
+	for i := from; i < to; i++ {
+		out = append(out, i)
+	}
+	return out
+}
+
+func menuNamed(names ...string) []int {
+	var out []int
+	for _, n := range names {
+		i := menuIndex(n)
+		if i < 0 {
+			panic("no menu entry " + n)
+		}
+		out = append(out, i)
+	}
+	return out
+}
+
+var (
+	menuGen1Quick = menuRange(0, nMenuQuick)
+	menuGen1      = menuRange(0, nMenuQuick+1)
+	menuGen2      = menuRange(nMenuQuick+1, len(menu))
+	menuAll       = menuRange(0, len(menu))
+)
+
+// hasInner: the kinds that have an inner element <block>1.
+func hasInner(kind int) bool { return kind != kP }
+
+// generated words of block slot: taken from the end of the upper-case words, which no skeleton reaches.
+func beforeWord(slot int) string { return words[25-2*slot] }
+func afterWord(slot int) string  { return words[24-2*slot] }
+
+const maxSlots = 4
+const maxWordsPerDoc = 18 // words[18..25] are the generated words of the four slots
 
 func menuIndex(name string) int {
 	for i, m := range menu {
@@ -192,8 +280,63 @@ func buildBlock(slot int, b blockSpec, src *wordSrc) *node {
 				txt(" " + textOf(ws[6:], salt))}
 		}
 		return p
+	case kGlue:
+		// the span touches a word on both sides: no break opportunity at its edges
+		p := el("p", id)
+		sp := func(w ...string) *node { return el("span", sub(1), txt(strings.Join(w, " "))) }
+		switch b.N {
+		case 1:
+			p.kids = []*node{sp(ws[0])}
+		case 3:
+			p.kids = []*node{txt(ws[0]), sp(ws[1]), txt(ws[2])}
+		case 5:
+			p.kids = []*node{txt(ws[0] + " " + ws[1]), sp(ws[2]), txt(ws[3] + " " + ws[4])}
+		default:
+			p.kids = []*node{txt(textOf(ws[:3], salt)), sp(ws[3], ws[4]), txt(textOf(ws[5:], salt+1))}
+		}
+		return p
+	case kNote:
+		p := el("p", id)
+		note := func(w ...string) *node {
+			n := el("span", sub(1), txt(strings.Join(w, " ")))
+			n.style = "float:footnote"
+			return n
+		}
+		switch b.N {
+		case 1:
+			p.kids = []*node{note(ws[0])}
+		case 3:
+			p.kids = []*node{txt(ws[0] + " "), note(ws[1]), txt(" " + ws[2])}
+		case 5:
+			p.kids = []*node{txt(ws[0] + " " + ws[1] + " "), note(ws[2], ws[3]), txt(" " + ws[4])}
+		default:
+			p.kids = []*node{txt(textOf(ws[:3], salt) + " "), note(ws[3:6]...), txt(" " + textOf(ws[6:], salt+1))}
+		}
+		return p
 	}
 	panic("bad kind")
+}
+
+// find returns the element with the given id.
+func (n *node) find(id string) *node {
+	if n.tag != "" && n.id == id {
+		return n
+	}
+	for _, k := range n.kids {
+		if r := k.find(id); r != nil {
+			return r
+		}
+	}
+	return nil
+}
+
+// pseudoTarget is the id of the element the pseudo-element rules of block slot select.
+func pseudoTarget(slot, kind int) string {
+	id := string(rune('a' + slot))
+	if kind == kTable {
+		return id + "1"
+	}
+	return id
 }
 
 func (d *docSpec) hasDev(name string) bool {
@@ -236,8 +379,30 @@ func (d *docSpec) tree() []*node {
 		n := buildBlock(i, b, src)
 		var st []string
 		for _, v := range d.Devs {
-			if v.Slot == i {
-				st = append(st, strings.ReplaceAll(menu[v.D].CSS, "(hS)", fmt.Sprintf("(h%d)", i)))
+			if v.Slot != i {
+				continue
+			}
+			m := menu[v.D]
+			switch m.Target {
+			case tBlock:
+				st = append(st, strings.ReplaceAll(m.CSS, "(hS)", fmt.Sprintf("(h%d)", i)))
+			case tInner:
+				if in := n.find(n.id + "1"); in != nil {
+					if in.style != "" {
+						in.style += ";"
+					}
+					in.style += m.CSS
+				}
+			case tPseudo:
+				t := n.find(pseudoTarget(i, b.Kind))
+				switch m.Name {
+				case "before":
+					t.before = beforeWord(i) + " "
+				case "before-pages":
+					t.before = pagesMark + " "
+				case "after":
+					t.after = " " + afterWord(i)
+				}
 			}
 		}
 		n.style = strings.Join(st, ";")
@@ -287,7 +452,20 @@ func (d *docSpec) html(c pageCfg) string {
 		fmt.Fprintf(&sb, "<style>@page{size:%dpx %dpx;margin:0}", d.W, h)
 	}
 	fmt.Fprintf(&sb, "html,body{margin:0;font-family:ahem;font-size:10px;line-height:1;orphans:%d;widows:%d}", c.Orphans, c.Widows)
-	sb.WriteString("p,div,ul,table{margin:0}ul{padding:0 0 0 10px}table{border-spacing:0}td{padding:0}</style>")
+	sb.WriteString("p,div,ul,table{margin:0}ul{padding:0 0 0 10px}table{border-spacing:0}td{padding:0}")
+	for _, b := range d.Blocks {
+		if b.Kind == kNote {
+			sb.WriteString("@page{@footnote{margin:0}}") // the default is margin-top:1em
+			break
+		}
+	}
+	for _, v := range d.Devs {
+		if m := menu[v.D]; m.Target == tPseudo {
+			css := strings.ReplaceAll(strings.ReplaceAll(m.CSS, "BEFORE", beforeWord(v.Slot)), "AFTER", afterWord(v.Slot))
+			fmt.Fprintf(&sb, "#%s::%s{%s}", pseudoTarget(v.Slot, d.Blocks[v.Slot].Kind), m.Pseudo, css)
+		}
+	}
+	sb.WriteString("</style>")
 	for i, n := range d.tree() {
 		if i > 0 {
 			sb.WriteString("\n") // inter-element white space
@@ -306,20 +484,49 @@ type flow struct {
 	// Site locates a failure of this flow: main | cell | thead-tfoot, or, for everything
 	// inside an out-of-flow block, the kind of that block: float | absolute | fixed | running.
 	Site string
+	// Open: the specifications do not say where this text goes (a footnote called from a running
+	// element: page-margin boxes have no footnote area): not compared
+	Open bool
 }
 
 type flowMap struct {
 	flows  map[string]*flow
 	order  []string
 	ofElem map[string]string // element id -> flow key
+	// elements whose ::before is the value of counter(pages)
+	pagesBefore map[string]bool
 }
 
 func isBlockTag(tag string) bool { return tag != "span" }
 
+// lineBreaker: the box of the element is not part of the text of a line: its edges are line
+// boundaries (block-level box, or atomic inline: CSS Text 3 §5.1 puts a wrap opportunity on both sides).
+func lineBreaker(n *node) bool {
+	return isBlockTag(n.tag) || strings.Contains(n.style, "display:inline-block") || strings.Contains(n.style, "display:block")
+}
+
+// oofKind: the way the declarations of a style attribute take the element out of the flow, after the
+// CSS 2.1 §9.7 fix-ups: running | fixed | absolute | footnote | float | "".
+func oofKind(style string) string {
+	for _, k := range [][2]string{{"position:running", "running"}, {"position:fixed", "fixed"}, {"position:absolute", "absolute"}} {
+		if strings.Contains(style, k[0]) {
+			return k[1]
+		}
+	}
+	// the last float declaration wins
+	if i := strings.LastIndex(style, "float:"); i >= 0 {
+		if strings.HasPrefix(style[i:], "float:footnote") {
+			return "footnote"
+		}
+		return "float"
+	}
+	return ""
+}
+
 // flowsOf computes the flows of the document and the expected text of each one with the
 // reference white space collapser.
 func (d *docSpec) flowsOf() *flowMap {
-	fm := &flowMap{flows: map[string]*flow{}, ofElem: map[string]string{}}
+	fm := &flowMap{flows: map[string]*flow{}, ofElem: map[string]string{}, pagesBefore: map[string]bool{}}
 	raw := map[string]*strings.Builder{}
 	get := func(key string, repeat bool, site string) *flow {
 		f := fm.flows[key]
@@ -356,31 +563,33 @@ func (d *docSpec) flowsOf() *flowMap {
 			}
 			own = get(n.id, cur.Repeat || inRepeatGroup, site)
 		} else if n.style != "" {
-			kind := ""
-			for _, k := range [][2]string{{"position:running", "running"}, {"position:fixed", "fixed"}, {"position:absolute", "absolute"}, {"float:", "float"}} {
-				if strings.Contains(n.style, k[0]) {
-					kind = k[1]
-					break
-				}
-			}
+			kind := oofKind(n.style)
 			if kind != "" {
 				site := outer
 				if site == "" {
 					site = kind
 				}
 				own = get(n.id, cur.Repeat || kind == "running" || kind == "fixed", site)
+				if kind == "footnote" && outer == "running" {
+					own.Open = true
+				}
 			}
 		}
 		if n.id != "" {
 			fm.ofElem[n.id] = own.Key
+			if strings.HasPrefix(n.before, pagesMark) {
+				fm.pagesBefore[n.id] = true
+			}
 		}
-		if isBlockTag(n.tag) {
+		if lineBreaker(n) {
 			raw[own.Key].WriteString(lineBoundary) // a block boundary is a line boundary
 		}
+		raw[own.Key].WriteString(n.before) // generated content is rendered text of the element
 		for _, k := range n.kids {
 			walk(k, own, inRepeatGroup)
 		}
-		if isBlockTag(n.tag) {
+		raw[own.Key].WriteString(n.after)
+		if lineBreaker(n) {
 			raw[own.Key].WriteString(lineBoundary)
 		}
 	}
@@ -465,6 +674,24 @@ func estLines(n *node, width int) int {
 	return greedyLines(wordLens(plainText(n)), width)
 }
 
+// generatedLines: upper bound of the lines the generated content of a subtree adds.
+func generatedLines(n *node) int {
+	if n.tag == "" {
+		return 0
+	}
+	c := 0
+	if n.before != "" {
+		c++
+	}
+	if n.after != "" {
+		c++
+	}
+	for _, k := range n.kids {
+		c += generatedLines(k)
+	}
+	return c
+}
+
 func plainText(n *node) string {
 	if n.tag == "" {
 		return n.text
@@ -522,6 +749,16 @@ func (d *docSpec) features(c pageCfg) []string {
 		if d.hasDev("margin") {
 			slack = 7
 		}
+		// footnotes take room at the bottom of the page they are called from, and a line with a
+		// footnote call (a superscript) is taller than 10px: the pages are at least this much shorter
+		pageH := c.H
+		for i, n := range tr {
+			if d.Blocks[i].Kind == kNote {
+				if fn := n.find(n.id + "1"); fn != nil {
+					pageH -= estLines(fn, d.W)*10 + 5
+				}
+			}
+		}
 		for i, n := range tr {
 			eff := d.effKind(i)
 			if eff != "" {
@@ -533,11 +770,11 @@ func (d *docSpec) features(c pageCfg) []string {
 			} else if d.slotHas(i, "float-right") {
 				w = d.W * 6 / 10
 			}
-			hgt := estLines(n, w)*10 + d.extraHeight(i)
+			hgt := estLines(n, w)*10 + d.extraHeight(i) + generatedLines(n)*10
 			if d.slotHas(i, "columns") && eff != "running" {
 				colLines := estLines(n, (w-10)/2)
 				hgt = (colLines+1)/2*10 + d.extraHeight(i)
-				if hgt > c.H || total+hgt > c.H {
+				if hgt > pageH || total+hgt > pageH {
 					set["page-break-in-columns"] = true
 				}
 				if eff != "" {
@@ -551,11 +788,23 @@ func (d *docSpec) features(c pageCfg) []string {
 			if d.slotHas(i, "clone") {
 				oofSlack += 8 // cloned decorations are reserved at every potential break
 			}
-			if eff != "" && eff != "running" && (hgt > c.H || total+hgt+oofSlack > c.H) {
+			if eff != "" && eff != "running" && (hgt > pageH || total+hgt+oofSlack > pageH) {
 				// the box does not fit between its naive static position and the bottom of a page
 				set[eff+"-overflows-page"] = true
 			}
-			if n.tag == "table" && eff != "running" && tableCrowdsPage(n, w, c.H-d.extraHeight(i)) {
+			innerSlack := 0
+			if d.slotHas(i, "in-inline-block") {
+				innerSlack = 2 // the line box of an inline-block cell is 11px high
+			}
+			if in := n.find(n.id + "1"); in != nil && in.tag != "td" && eff == "" {
+				// an inner float / absolutely positioned box of several lines inside a block that does not
+				// fit the rest of the first page may be broken: the region of the top level boxes extends to it
+				if k := oofKind(in.style); (k == "float" || k == "absolute") && estLines(in, w) > 1 && (hgt > pageH || total+hgt+oofSlack > pageH) {
+					set[k] = true
+					set[k+"-overflows-page"] = true
+				}
+			}
+			if n.tag == "table" && eff != "running" && tableCrowdsPage(n, w, pageH-d.extraHeight(i)-innerSlack) {
 				set["table-header-footer-crowd-page"] = true
 			}
 			if eff == "running" && d.slotHas(i, "inline-block") {
